@@ -45,7 +45,8 @@ class State(object):
 OPS = [
     ("read_pos", None), ("read_quat", None), ("read_mat", None),
     ("left", "se3"), ("right", "se3"), ("right_prop", "se3"),
-    ("left", "sim3"), ("right", "sim3"),
+    ("left", "sim3"), ("right", "sim3"), ("right_prop", "sim3"),
+    ("read_derived", None),
     ("scale", 2.0),
     ("reduce", (0, 2, 3)),
     ("downsample", 2),
@@ -91,9 +92,10 @@ class System(object):
 
     def key(self, st):
         o = st.obj
-        flags = (type(o).__name__, hasattr(o, "_positions_xyz"),
-                 hasattr(o, "_orientations_quat_wxyz"),
-                 hasattr(o, "_poses_se3"), bool(o._projected))
+        # which attributes exist is the hidden cache state (the three views
+        # today; any further cache a refactoring adds is picked up as well)
+        flags = (type(o).__name__, tuple(sorted(o.__dict__)),
+                 bool(o._projected))
         parts = [repr(flags).encode()]
         parts.append(_norm(np.array([geom.pose(R, p)
                                      for R, p in zip(st.Rs, st.ps)])))
@@ -211,6 +213,20 @@ class System(object):
                         for M, R, p in zip(val, Rs, ps)):
                     msgs.append("poses_se3 read differs from the model")
                 new = (Rs, ps, ts)
+            elif name == "read_derived":
+                # derived quantities read on the live object (a cache behind
+                # them would be populated here and must be refreshed later)
+                d, L = o.distances, o.path_length
+                if ts is not None:
+                    if n >= 2:
+                        o.speeds
+                    o.get_infos(), o.get_statistics()
+                steps = [float(np.linalg.norm(ps[k + 1] - ps[k]))
+                         for k in range(n - 1)]
+                if check and not common.close(
+                        d, np.concatenate([[0.0], np.cumsum(steps)]), 10):
+                    msgs.append("distances read differ from the model")
+                new = (Rs, ps, ts)
             elif name in ("left", "right", "right_prop"):
                 T = T_SE3 if arg == "se3" else T_SIM3
                 s = 1.0 if arg == "se3" else 2.0
@@ -224,14 +240,16 @@ class System(object):
                     new = ([R @ Rt for R in Rs],
                            [p + R @ tt for R, p in zip(Rs, ps)], ts)
                 else:
+                    # every relative motion D_i becomes D_i*T, the first
+                    # pose is kept; with a similarity the chain is a product
+                    # of similarities whose rotation blocks are normalised
                     P = [geom.pose(R, p) for R, p in zip(Rs, ps)]
-                    Tm = geom.pose(Rt, tt)
                     out = [P[0]]
                     for k in range(n - 1):
                         D = geom.pose_inv(P[k]) @ P[k + 1]
-                        out.append(out[-1] @ D @ Tm)
-                    new = ([M[:3, :3] for M in out], [M[:3, 3] for M in out],
-                           ts)
+                        out.append(out[-1] @ D @ T)
+                    new = ([M[:3, :3] / np.cbrt(np.linalg.det(M[:3, :3]))
+                            for M in out], [M[:3, 3] for M in out], ts)
             elif name == "scale":
                 o.scale(arg)
                 new = (Rs, [arg * p for p in ps], ts)
